@@ -42,7 +42,10 @@ func strList(v interface{}) []string {
 }
 
 // the pool configuration used by the API cases: one pool, 10.0.0.2 ... 10.0.3.250
-const apiConf = `{"floatingips":[{"nodeSubnets":["10.1.0.0/16"],"ips":["10.0.0.2~10.0.3.250"],"subnet":"10.0.0.0/22","gateway":"10.0.0.1","vlan":2}]}`
+// three pools in address blocks more than 2^31 apart from each other, so that an ordering of the IPs that is not a total order shows
+const apiConf = `{"floatingips":[{"nodeSubnets":["10.1.0.0/16"],"ips":["10.0.0.2~10.0.3.250"],"subnet":"10.0.0.0/22","gateway":"10.0.0.1","vlan":2},` +
+	`{"nodeSubnets":["10.1.0.0/16"],"ips":["100.64.0.2~100.64.0.250"],"subnet":"100.64.0.0/24","gateway":"100.64.0.1","vlan":3},` +
+	`{"nodeSubnets":["10.1.0.0/16"],"ips":["192.168.5.2~192.168.5.250"],"subnet":"192.168.5.0/24","gateway":"192.168.5.1","vlan":4}]}`
 
 func call(method, target string, body []byte, h func(*restful.Request, *restful.Response)) *httptest.ResponseRecorder {
 	req := httptest.NewRequest(method, target, bytes.NewReader(body))
